@@ -829,7 +829,17 @@ def r12_regroup_respects_model_barriers(ctx, rule_id='R-C03.12'):
     ctx.floor('per-model grouping stores in the optimiser', groups, 1)
 
 
+def r13_merged_copy_map(ctx):
+    """The data copy of the merged rebuild (shared with R-C02.1/.2): which
+    old columns are copied and under which names.  A merged DeleteField x + AddField x must not carry the old
+    values of x into the new column."""
+    from .c02 import r1_r4_copy_map
+    r1_r4_copy_map(ctx, ids={'R-C02.1': 'R-C03.13', 'R-C02.2': 'R-C03.13'},
+                   upto='R-C02.2')
+
+
 def run(ctx):
+    r13_merged_copy_map(ctx)
     r12_regroup_respects_model_barriers(ctx)
     r11_fold_copies_target_state(ctx)
     r9_merged_index_state(ctx)
